@@ -245,7 +245,7 @@ func execute(sc *Scenario, prefix []int) (*vsched.Result, *World) {
 			}
 		}
 		s.TimerGate = func(tm *vtime.Timer) bool {
-			if tm.D == 10*time.Millisecond && tm.IsFunc() {
+			if tm.D == 10*time.Millisecond && tm.IsFunc() && tm.Tag != "context" {
 				// the Escape timer can fire only while the parsers wait for input
 				return w.Con.Idle() && !vpty.Busy()
 			}
